@@ -39,12 +39,11 @@ func init() {
 
 func init() {
 	register(&PropSpec{ID: "TMPARMS", Explanation: "tmp", Run: func(r *Report) {
-		ruleFilterOps(r)
-		rulePresence(r)
-		ruleCursor(r)
-		ruleGuardedReads(r)
-		ruleSortCmp(r)
-		ruleSortScan(r)
-		ruleExpire(r)
+		ruleKeyPaths(r)
+		ruleKeyAtomic(r)
+		ruleIntern(r)
+		ruleAlias(r)
+		ruleMergeQueued(r)
+		ruleWidths(r)
 	}})
 }
